@@ -241,6 +241,9 @@ def configs_large(quick):
         [(254, 3), (255, 256), (256, 255), (257, 2), (2, 257), (3, 300), (300, 257), (600, 3)]
     for nl, np_ in sizes_v2:
         out.append(_cfg('large:v2:l%dp%d' % (nl, np_), 10, True, nl, np_, style='long', T=30.0))
+    out.append(_cfg('large:v2p4:l257p2', 4, True, 257, 2, style='long', T=30.0))
+    if not quick:
+        out.append(_cfg('large:v2p4:l2p300', 4, True, 2, 300, style='long', T=30.0))
     for nl, np_ in ((255, 2),) if quick else ((255, 2), (2, 255)):
         out.append(_cfg('large:v1:l%dp%d' % (nl, np_), 3, True, nl, np_, style='long', T=30.0))
     if not quick:
